@@ -11,7 +11,7 @@ E1 = "E1-llsym"
 CHECKS = {
     "C03": dict(engine=E1, cat="model_checking", design="DESIGN.md §4 C03",
                 technique="bounded symbolic execution of the generated C's LLVM IR + z3 (bit-vectors) vs specification decoders; witnesses replayed on the compiled module",
-                text="Decoders (hybrid RLE/bit-pack, bit-packed, RLE, varint, delta-binary-packed) executed symbolically from the LLVM IR of the generated C with the argument patterns of their call sites; z3 shows output == specification for every payload of each enumerated stream shape, or returns a payload that is replayed on the compiled module. Bounded: shapes enumerated, payload symbolic (delta: first value and min-delta varints of 1, 5 and 10 bytes). On top: the real core.read_col page loop for a flat column (CrossHair; several pages, OPTIONAL/REQUIRED, dictionary/plain), the call-site patterns of read_data_page (v1) and a z3 lemma lifted from the AST of every delta_binary_unpack call site (v1 and v2) deciding the 32/64-bit choice.",
+                text="Decoders (hybrid RLE/bit-pack, bit-packed, RLE, varint, delta-binary-packed) executed symbolically from the LLVM IR of the generated C with the argument patterns of their call sites; z3 shows output == specification for every payload of each enumerated stream shape, or returns a payload that is replayed on the compiled module. Bounded: shapes enumerated, payload symbolic (delta: first value and min-delta varints of 1, 5 and 10 bytes). On top: the real core.read_col page loop for a flat column (CrossHair; several pages, OPTIONAL/REQUIRED, dictionary/plain), the call-site patterns of read_data_page (v1) and a z3 lemma lifted from the AST of every delta_binary_unpack call site (v1 and v2) deciding the 32/64-bit choice. Also: the definition-level shortcut (real read_col -> read_data_page -> read_def / skip_definition_bytes with the level-block length symbolic), the flat DATA_PAGE_V2 page loop, the BYTE_ARRAY decoder (speedups.pyx lifted) and the footer location arithmetic of _parse_header.",
                 note="Reduced claim: the decoders, the flat page loop and the decoder call sites (not PLAIN/np.frombuffer value bytes, codecs, converted-type conversion, numpy fast paths of v2 pages). Trusts clang's IR, the stub list in the evidence file, and the specification functions written from Encodings.md."),
     "C11": dict(engine=E1, cat="model_checking", design="DESIGN.md §4 C11",
                 technique="bounded symbolic execution of the generated C's LLVM IR + z3 (bit-vectors) vs specification; replay on the compiled module",
@@ -25,19 +25,19 @@ CHECKS = {
 E2 = "E2-pyshim"
 CHECKS["C05"] = dict(engine=E2, cat="other", design="DESIGN.md §4 C05",
     technique="CrossHair (z3) symbolic execution of the real api.filter_* functions with contract shims; counterexamples replayed through ParquetFile.to_pandas(filters=...)",
-    text="The real filter_val / filter_in / filter_not_in / filter_out_stats / filter_out_cats / filter_row_groups are executed symbolically: chunk bounds (possibly absent), null counts, constants, operator, and a witness row are symbolic integers (and short strings); the postcondition 'a row satisfying the predicate is never pruned, order preserved' is confirmed over all paths or refuted with a counterexample that is replayed on a real file.",
+    text="The real filter_val / filter_in / filter_not_in / filter_out_stats / filter_out_cats / filter_row_groups are executed symbolically: chunk bounds (possibly absent), null counts, constants, operator, and a witness row are symbolic integers (and short strings); the postcondition 'a row satisfying the predicate is never pruned, order preserved' is confirmed over all paths or refuted with a counterexample that is replayed on a real file. Also: the real text -> number typing of partition labels (labels beyond 2**53), several conditions on one partition column, and refusal of unknown filter columns in any OR group.",
     note="Bounded by harness shapes (<=2 clauses per AND group, <=2 OR groups, in-lists <=3, strings <=2 chars); statistics decoding and partition-text typing are stubbed to identity; float/NaN/datetime bounds outside.")
 CHECKS["C06"] = dict(engine=E2, cat="other", design="DESIGN.md §4 C06",
     technique="CrossHair (z3) symbolic execution of the real to_pandas/head/count on a shim handle + z3 LIA lemma lifted from pre_allocate's AST",
-    text="Placement arithmetic of full and partial reads: the real to_pandas / head / count run symbolically with row-group sizes in [0, 2^31); postconditions: placements tile the allocation in order, head(n) reads a prefix holding min(n,total) rows, count() = sum, iter_row_groups yields one frame per non-empty group in order, a caller-supplied file object stays open and reusable, a handle read twice gives the same placements. The RangeIndex reconstruction expression is extracted from the source and decided in LIA.",
+    text="Placement arithmetic of full and partial reads: the real to_pandas / head / count run symbolically with row-group sizes in [0, 2^31); postconditions: placements tile the allocation in order, head(n) reads a prefix holding min(n,total) rows, count() = sum, iter_row_groups yields one frame per non-empty group in order, a caller-supplied file object stays open and reusable, a handle read twice gives the same placements. The RangeIndex reconstruction expression is extracted from the source and decided in LIA. Also: what a sliced handle inherits (time zones, column-index dtype) and what it must recompute (statistics), and that the caller's columns list is not modified across reads with different index choices.",
     note="Reduced claim: offsets, counts and range-index arithmetic only; column/index selection and pickling are pandas glue outside the encoding. Shim handle records what pre_allocate/read_row_group_file are given.")
 CHECKS["C13"] = dict(engine=E2, cat="other", design="DESIGN.md §4 C13",
     technique="CrossHair (z3) symbolic execution of the real _column_filter / to_pandas mask branch on vector shims; counterexamples replayed through to_pandas(row_filter=True)",
-    text="Predicate evaluation (real _column_filter; row values, constants, operators symbolic) is compared with the documented semantics, and the two-pass masked placement of the real to_pandas is checked for every mask over small row-group shapes. Counterexamples are replayed on real files.",
+    text="Predicate evaluation (real _column_filter; row values, constants, operators symbolic) is compared with the documented semantics, and the two-pass masked placement of the real to_pandas is checked for every mask over small row-group shapes. Counterexamples are replayed on real files. Also: count(filters, row_filter=True) through the real count / iter_row_groups / _column_filter for four filter programs (pandas' `empty` contract for column-less frames).",
     note="Bounded: <=2 rows x 2 columns, <=2 clauses x <=2 groups, masks over <=4 row groups of <=4 rows; partition clauses in either position of an AND group and as OR groups. numpy/pandas replaced by vector shims with the documented elementwise contracts. Mask application inside the page loop is checked on the real core.read_col for a flat column of <=3 pages (v1 pages; v2 pages with a mask are outside).")
 CHECKS["C16"] = dict(engine=E2, cat="other", design="DESIGN.md §4 C16",
     technique="CrossHair (z3) symbolic execution of the real update_file_custom_metadata on a symbolic file and of update_custom_metadata on real KeyValue objects; replay on real files",
-    text="In-place footer rewrite for every data length and every old/new footer length (so every footer delta): nothing before the footer is written and the file is exactly data ++ footer ++ len32 ++ PAR1; merge rules compared with the dict-update-with-None-deletes model over str/bytes/non-ASCII key spellings; write-time values decode back verbatim.",
+    text="In-place footer rewrite for every data length and every old/new footer length (so every footer delta): nothing before the footer is written and the file is exactly data ++ footer ++ len32 ++ PAR1; merge rules compared with the dict-update-with-None-deletes model over str/bytes/non-ASCII key spellings; write-time values decode back verbatim. Also: what ParquetFile.key_value_metadata reports for arbitrary byte strings (keys and values decoded independently), and that every update leaves a footer the real write_thrift accepts.",
     note="File is a SymFile shim (length + write log); thrift (de)serialisation stubbed to segments of symbolic length (its content is C10). Merge rules over a 4x4 key/value alphabet, <=2 existing entries, <=2 updates.")
 E3 = "E3-pyxlift"
 CHECKS["C15"] = dict(engine=E3, cat="other", design="DESIGN.md §4 C15",
@@ -50,23 +50,23 @@ CHECKS["C10"] = dict(engine="E3-pyxlift+E1-llsym", cat="other", design="DESIGN.m
     note="T1 integer codec (E1), T2 structure round trip and re-serialisation of foreign metadata against a reference compact codec generated from parquet.thrift each run (token streams; every struct of the IDL that fastparquet writes, integer profiles instead of free integers, lists <= 2), T4 capacity plus the buffer premise as a non-linear integer lemma lifted from to_bytes. The lift is tied to the compiled code by the quoted-line drift guard and by replay.")
 CHECKS["C01"] = dict(engine=E2, cat="other", design="DESIGN.md §4 C01",
     technique="CrossHair (z3) over the real iter_dataframe / write_column / make_definitions / skip_definition_bytes with shims; z3 bit-vector and LIA lemmas lifted from function ASTs; LLVM-IR/z3 decode of writer-shaped level streams",
-    text="Reduced claim: the framing arithmetic on which the round trip depends - row-group and page tiling, level-block length agreement between writer and the reader's skip for every row count < 2^31, null-mask decode for the writer's shapes, dictionary-index header vs reader fast path, range-index regeneration, and the logical-type <-> physical-type tables of writer and reader being mutually inverse (lemma over the real tables) - each decided for all values within its bound.",
+    text="Reduced claim: the framing arithmetic on which the round trip depends - row-group and page tiling, level-block length agreement between writer and the reader's skip for every row count < 2^31, null-mask decode for the writer's shapes, dictionary-index header vs reader fast path, range-index regeneration, and the logical-type <-> physical-type tables of writer and reader being mutually inverse (lemma over the real tables) - each decided for all values within its bound. Since rounds 4-6 also: the BYTE_ARRAY codec round trip (speedups.pyx lifted), the definition-level shortcut of the v1 reader against the real level-block length, the level framing of pages with NULLs, the flat DATA_PAGE_V2 page loop (real read_data_page_v2: PLAIN / dictionary / delta, nullable outputs, several pages), timestamp encodings (INT96 day/nanosecond split, unit factors, timedelta microseconds) as z3 lemmas lifted from writer.convert / converted_types.convert / writer.time_shift, and the forwarding of write()'s options to the functions that do the work.",
     note="Value conversion through numpy/pandas, codecs, dtype restoration and block-manager aliasing are not encodable and are outside the claim (stated in DESIGN.md); the three interaction failures named in the property live there.")
 CHECKS["C02"] = dict(engine=E2, cat="other", design="DESIGN.md §4 C02",
     technique="CrossHair (z3) symbolic execution of the real write_column / write_simple / write_multi over symbolic lengths with a linear-arithmetic oracle on the write log; witnesses replayed by writing a real file and validating it structurally",
-    text="Chunk/page/file bookkeeping: for every row count, page split, null layout and every level/value/compressed/header length the recorded offsets, sizes and counts describe exactly the bytes written (pages tile the chunk; sums match), for a lattice of page version x categorical x codec x nullability x page count; file framing and summary layout likewise.",
+    text="Chunk/page/file bookkeeping: for every row count, page split, null layout and every level/value/compressed/header length the recorded offsets, sizes and counts describe exactly the bytes written (pages tile the chunk; sums match), for a lattice of page version x categorical x codec x nullability x page count; file framing and summary layout likewise. Also: wire conformance of every metadata structure the writer emits (lifted serialiser vs a reference compact codec generated from parquet.thrift, incl. list-header boundaries) and the v1 level-block length prefix for pages with NULLs.",
     note="Reduced claim: bookkeeping and framing; the bytes inside segments (values, codec output, thrift) and decoding by an independent reader are outside. Collaborators that end in C are contract shims listed in the evidence; write_column carries one declared AST rewrite.")
 CHECKS["C04"] = dict(engine=E2, cat="other", design="DESIGN.md §4 C04",
     technique="CrossHair (z3) over the statistics section of the real write_column with a categorical shim implementing the pandas ordering contract; replay through ParquetFile.statistics",
-    text="Categorical min/max over symbolic category order and presence must equal the smallest/largest present value; null_count equals the per-page tally for every null layout; plain columns pass min/max through; which columns get statistics (stats=True/False/list/auto) and the sorted-columns derivation from chunk bounds (real api.sorted_partitioned_columns / statistics selection) agree with the documented rule.",
+    text="Categorical min/max over symbolic category order and presence must equal the smallest/largest present value; null_count equals the per-page tally for every null layout; plain columns pass min/max through; which columns get statistics (stats=True/False/list/auto) and the sorted-columns derivation from chunk bounds (real api.sorted_partitioned_columns / statistics selection) agree with the documented rule. Also: statistics of BYTE_ARRAY and BOOLEAN columns through the real encode/slice expressions (symbolic value lengths), the real api.statistics over symbolic Statistics fields (empty bounds, legacy vs *_value fields), and statistics of sliced handles.",
     note="Reduced claim: fastparquet-side logic only; pandas min/max semantics (NaN, unsigned, tz, unicode) and decoding in api.statistics are outside.")
 CHECKS["C07"] = dict(engine=E2, cat="other", design="DESIGN.md §4 C07",
     technique="CrossHair (z3) over the real write_simple append branch and write_row_groups/write_multi on symbolic files / filesystem",
-    text="Append positions and order: every write of a single-file append starts at or after the old footer, row groups = old ++ new, the file ends with the new frame; a multi-file append opens no existing data file for writing, uses fresh part names (existing ids with gaps and several digits), writes parts before the summary, references old ++ new in order and gives every part file a footer describing exactly its own rows.",
+    text="Append positions and order: every write of a single-file append starts at or after the old footer, row groups = old ++ new, the file ends with the new frame; a multi-file append opens no existing data file for writing, uses fresh part names (existing ids with gaps and several digits), writes parts before the summary, references old ++ new in order and gives every part file a footer describing exactly its own rows. Also: the layout (hive / drill) of part files appended through write_row_groups, part ids in any order, and the forwarding of write(append=True)'s options (calls bound to the real signatures).",
     note="Reduced claim: positions/order/names. Categorical relabelling on read and schema checks are pandas/numpy glue outside. Assumes the re-serialised footer does not shrink on append.")
 CHECKS["C18"] = dict(engine=E2, cat="other", design="DESIGN.md §4 C18",
     technique="CrossHair (z3) over the real write paths with a rejection injected at a symbolic (row group, byte) position; replay on real files",
-    text="If a late rejection occurs at any row-group position after any number of bytes, the call raises and the pre-existing bytes are untouched (or restored).",
+    text="If a late rejection occurs at any row-group position after any number of bytes, the call raises and the pre-existing bytes are untouched (or restored). Also: the up-front refusals of write(append=True) (scheme / partition mismatch before any write) and refusal of unknown filter columns.",
     note="Reduced claim: failure position, plus the up-front column check of append reached through the real write_row_groups -> write_simple -> make_row_group; which values trigger an encoding rejection is concrete pandas behaviour outside. Single-file append rejected mid-way is a recorded known finding.")
 CHECKS["C19"] = dict(engine=E2, cat="other", design="DESIGN.md §4 C19",
     technique="CrossHair (z3) over the real multi-file append path on a symbolic filesystem with the failing call index symbolic; replay with fault-injecting open_with/mkdirs on real files",
@@ -74,15 +74,15 @@ CHECKS["C19"] = dict(engine=E2, cat="other", design="DESIGN.md §4 C19",
     note="Each feasible k is one path (stated in the evidence). Crash semantics of OS buffers are outside.")
 CHECKS["C08"] = dict(engine=E2, cat="other", design="DESIGN.md §4 C08",
     technique="CrossHair (z3) over the real partition_on_columns/path_string/join_path and paths_to_cats/val_to_num/read_row_group partition lines with symbolic key values; replay by writing and reading a real hive/drill dataset",
-    text="Path text <-> key value: for all string keys up to the bound (every character except '/' and '=') and integer/bool keys of every digit count, distinct keys give distinct directories and each written path reads back exactly its key, of the same kind, under the original name (hive) or as directory text (drill).",
+    text="Path text <-> key value: for all string keys up to the bound (every character except '/' and '=') and integer/bool keys of every digit count, distinct keys give distinct directories and each written path reads back exactly its key, of the same kind, under the original name (hive) or as directory text (drill). Also: two partition levels with overlapping label texts and suffix-related column names (directory-set order symbolic), labels that look like escapes / numbers / dates / keywords, and appends that must keep the dataset's layout.",
     note="Reduced claim: text kinds (str/int/bool) plus the timestamp key text produced by path_string (Timestamp.isoformat contract shim: second/milli/micro/nanosecond resolution must survive); float keys and the pandas groupby are outside. numpy's dtype(t).type is a contract stub; partition_on_columns carries one declared AST rewrite.")
 CHECKS["C14"] = dict(engine=E2, cat="other", design="DESIGN.md §4 C14",
     technique="CrossHair (z3) over the real metadata_from_many (both branches) and analyse_paths with symbolic row counts, footer lengths and path components",
-    text="Metadata assembly for lists of files: order of row groups (file order, then intra-file), relative paths that rebuild the originals under the common base path, total row count, complete footer fetch for any footer length, schema verification.",
+    text="Metadata assembly for lists of files: order of row groups (file order, then intra-file), relative paths that rebuild the originals under the common base path, total row count, complete footer fetch for any footer length, schema verification. Also: the real ParquetFile.__init__ directory branch on a filesystem shim (root pinned to the opened directory), _parse_header, five kinds of schema difference with and without a filesystem object (real compiled dict_eq), partition levels with overlapping labels.",
     note="Reduced claim: metadata assembly only (the fetch order of fs.cat is arbitrary - the shim returns sorted order while the file list order is symbolic); directory listing, partition typing (C08) and categorical labels across files are outside. ParquetFile / fs.cat are shims.")
 CHECKS["C09"] = dict(engine=E2, cat="other", design="DESIGN.md §4 C09",
     technique="CrossHair (z3): one inductive step of the real remove_row_groups / _sort_part_names / write_row_groups from a symbolic dataset state satisfying the invariant",
-    text="From any dataset state within the bound that satisfies the invariant (referenced files == files on disk, no duplicates, num_rows = sum) one removal, renumbering or append of the real code re-establishes the invariant and yields the model's row-group list.",
+    text="From any dataset state within the bound that satisfies the invariant (referenced files == files on disk, no duplicates, num_rows = sum) one removal, renumbering or append of the real code re-establishes the invariant and yields the model's row-group list. Also: the text append='overwrite' compares (expression taken from writer.overwrite's source) against util.path_string for float / int / bool / text / timestamp keys, and part numbering in any order.",
     note="Lowest-priority, reduced claim: no histories (one step from an arbitrary valid state), <=3 row groups. append='overwrite' is one step of the real writer.overwrite on a shim dataset (partition values <= 3, which partitions are replaced and which stay). Renumbering with part numbers shared between directories is a recorded known finding.")
 CHECKS["C17"] = dict(engine=E2, cat="other", design="DESIGN.md §4 C17",
     technique="CrossHair (z3) symbolic execution of the real ParquetFile._dtypes / pre_allocate / _get_index on a handle built from real schema and row-group thrift objects with symbolic row counts, NULL counts and statistics states; counterexamples replayed on spec-built files through ParquetFile.dtypes / to_pandas",
